@@ -1,0 +1,16 @@
+//go:build verif
+
+package value
+
+// Contracts for cancellation (see /verif/DESIGN.md, C33).
+// This file contains no declarations: it only carries specification comments
+// that the elkvc verification-condition generator reads.
+
+/*@
+// whether the aborter's context is done, asked at the moment of the call (trusted: a
+// non-blocking receive on ctx.Done())
+func ShouldAbort
+  trusted
+  pure
+  assigns nothing
+@*/
